@@ -1,5 +1,6 @@
 import Hm.C07Retained
 import Hm.C12
+import Hm.RustTrim
 
 /-! C07, first sentence, on completion of a chunked response: the header list the library writes itself
     (trailer fields appended, Transfer-Encoding re-joined without `chunked`, Content-Length added, Trailer removed)
@@ -60,9 +61,9 @@ theorem splitTerminator_sublist (sep : UInt8) (s : Bytes) : (splitTerminator sep
 theorem lower_length (t : Bytes) : (lower t).length = t.length := by simp [lower]
 
 theorem tokW_tokens_of_value (v : Bytes) :
-    tokW ((splitTerminator COMMA v).map fun t => lower (trimBy isAsciiWs t)) ≤ 2 * v.length + 2 := by
-  have h1 := tokW_map_le (fun t => lower (trimBy isAsciiWs t))
-    (by intro t; simp only [lower_length]; exact trimBy_length_le _ _) (splitTerminator COMMA v)
+    tokW ((splitTerminator COMMA v).map fun t => lower (rustTrim t)) ≤ 2 * v.length + 2 := by
+  have h1 := tokW_map_le (fun t => lower (rustTrim t))
+    (by intro t; simp only [lower_length]; exact rustTrim_length_le _) (splitTerminator COMMA v)
   have h2 := tokW_sublist (splitTerminator_sublist COMMA v)
   have h3 := tokW_splitOn COMMA v
   omega
